@@ -20,3 +20,12 @@ Theorem no_keyword_dropped :
     kw_disp e <> Dropped /\
     (forall ts, kw_disp e = Forwarded ts -> In (expected_target (kw_name e)) ts).
 Proof. exact (table_ok_spec kw_table kw_table_ok). Qed.
+
+Lemma kw_identity_ok : identity_ok kw_identity kw_table = true.
+Proof. vm_compute. reflexivity. Qed.
+
+Theorem forwarded_values_unmodified :
+  forall e ts, In e kw_table -> kw_disp e = Forwarded ts ->
+    kw_name e <> "func"%string -> kw_name e <> "x0"%string ->
+    In (kw_fun e, kw_name e) kw_identity.
+Proof. exact (identity_ok_spec kw_identity kw_table kw_identity_ok). Qed.
